@@ -1,6 +1,6 @@
 //@ tu: libxcm/core/attr_path.c
 //@ enforce: attr_path_len
-//@ pre-unwind: attr_path_len.0:6 strlen.0:17 xv_ap_putzd.0:21 xv_ap_putzd.1:21
+//@ pre-unwind: attr_path_len.2:6 strlen.0:17 xv_ap_putzd.0:21 xv_ap_putzd.1:21
 //@ bounded: arbitrary well-shaped path of 0..4 components (key or index below LONG_MAX), keys of 0..15 characters
 //@ props: C19
 //@ expect: postcondition>=1 canary=5
